@@ -88,8 +88,12 @@ BASE = [M(0, "O"), M(1, "K0", 0, "cn"), M(2, "K1", 1, "cn"), M(3, "int")]
 DEP = [M(0, "O", -1), M(1, ["lit", 0]), M(2, ["lit", 1]), M(3, ["dep", "int", "p6"], 1, "cn"), M(4, "str")]
 EXTRA = M(9, "str", 0)
 EXTRA_CN = M(8, "K0", 2, "cn")
+# registering this one changes the generated entry point itself (a second, optional positional parameter)
+EXTRA_SHAPE = {"id": 7, "shape": gen.SHAPES["xy?"], "types": {"x": "K1", "y": "int"}, "prio": 3}
+EXTRAS = (EXTRA, EXTRA_CN, EXTRA_SHAPE)
 
 SIGMA = [("K0()", K0()), ("K1()", K1()), ("5", 5), ("'s'", "s")]
+SIGMA2 = [(n, (v,)) for n, v in SIGMA] + [("K1(),3", (SIGMA[1][1], 3)), ("K0(),3", (SIGMA[0][1], 3))]
 SIGMA_DEP = [("0", 0), ("1", 1), ("2", 2), ("'s'", "s"), ("1.5", 1.5)]
 
 
@@ -107,7 +111,7 @@ class Scenario:
         self.annotate = annotate
 
     def setup(self):
-        allspecs = self.mspecs + [m for m in (EXTRA, EXTRA_CN) if m["id"] not in {x["id"] for x in self.mspecs}]
+        allspecs = self.mspecs + [m for m in EXTRAS if m["id"] not in {x["id"] for x in self.mspecs}]
         prog = gen.Program(CLASSES, allspecs, annotate=self.annotate, register=False)
         for m in self.mspecs:
             prog.ov.register(prog.fns[m["id"]], priority=m.get("prio", 0))
@@ -151,7 +155,7 @@ def _resolve(v):
 def _register(mid):
     def op(st):
         p = st["prog"]
-        m = [m for m in (EXTRA, EXTRA_CN) if m["id"] == mid][0]
+        m = [m for m in EXTRAS if m["id"] == mid][0]
         p.ov.register(p.fns[mid], priority=m.get("prio", 0))
 
     return op
@@ -173,6 +177,7 @@ def scenarios(tier):
         Scenario("first-call/Ovld.__call__", BASE, SIGMA, _noop, _first_call("ovld", k0), [ids(BASE)]),
         Scenario("cache-miss/call_next-chain", BASE, SIGMA, _warm([5]), _call(k1), [ids(BASE)]),
         Scenario("rebuild/register-after-use", BASE, SIGMA, _warm([k1, 5]), _register(8), [ids(BASE), ids(BASE) + (8,)]),
+        Scenario("rebuild/register-changes-entry-point", BASE, SIGMA2, _warm([k1, 5]), _register(7), [ids(BASE), ids(BASE) + (7,)]),
     ]
     if tier != "quick":
         S += [
@@ -192,16 +197,27 @@ def norm(out):
     return (out[0], out[1], repr(out[2]) if out[0] == "ret" else None)
 
 
-def reference_outcomes(sc):
-    """Fault-free outcome of every probe for every method set that counts as complete."""
+def reference_outcomes(sc, only=None):
+    """Fault-free outcome of every probe for every method set that counts as complete
+    (``only``: for exactly that method set)."""
     table = {}
-    for ms_ids in sc.after_sets:
-        allspecs = {m["id"]: m for m in sc.mspecs + [EXTRA, EXTRA_CN]}
+    for ms_ids in ([only] if only is not None else sc.after_sets):
+        allspecs = {m["id"]: m for m in sc.mspecs + list(EXTRAS)}
         specs = [allspecs[i] for i in ms_ids]
         for ci, (vn, v) in enumerate(sc.sigma):
             p = gen.Program(CLASSES, specs, annotate=sc.annotate)
-            table.setdefault(ci, set()).add(norm(p.call((v,), {})))
+            table.setdefault(ci, set()).add(norm(p.call(v if isinstance(v, tuple) else (v,), {})))
     return table
+
+
+def registered_ids(p):
+    """Which methods the function holds after the fault (in registration order), read from the library's own
+    method table; None when that table cannot be read (then both the old and the new set count as complete)."""
+    try:
+        items = sorted(p.ov._defns.items(), key=lambda kv: kv[0].tiebreak)
+        return tuple(gen.handler_key(fn)[1] for _, fn in items)
+    except AttributeError:
+        return None
 
 
 def probe_entries(p):
@@ -227,7 +243,8 @@ def explore_scenario(sc, shard, nshards, acc):
     N = tr.n
     if out[0] == "exc" and not isinstance(out[1], (TypeError,)):
         raise core.HarnessError(f"scenario {sc.name} fails fault-free: {out[1]!r}")
-    expected = reference_outcomes(sc)
+    expected_any = reference_outcomes(sc)
+    by_set = {}
     acc.extra.setdefault("fault_points", {})[sc.name] = N
     for k in range(1 + shard, N + 1, nshards):
         where = None
@@ -239,9 +256,21 @@ def explore_scenario(sc, shard, nshards, acc):
                     raise core.HarnessError(f"{sc.name}: fault {k}/{N} did not surface ({out!r}); replay diverged")
                 where = tr.where
                 p = st["prog"]
+                # the complete set = what is registered after the fault (an interrupted register / unregister
+                # either took effect or did not)
+                live = registered_ids(p)
+                if live is None:
+                    expected = expected_any
+                else:
+                    key = tuple(sorted(live))
+                    if key not in by_set:
+                        if not any(set(key) == set(a) for a in sc.after_sets):
+                            raise core.HarnessError(f"{sc.name}: method table {key} after the fault is neither the old nor the new set")
+                        by_set[key] = reference_outcomes(sc, only=[i for a in sc.after_sets if set(a) == set(key) for i in a])
+                    expected = by_set[key]
                 ename, fn = probe_entries(p)[ei]
                 del p.log[:]
-                res = gen.run_call(fn, (v,), {}, p.log)
+                res = gen.run_call(fn, v if isinstance(v, tuple) else (v,), {}, p.log)
                 acc.count("evaluations")
                 disc = judge(expected[ci], res)
                 if disc:
